@@ -287,6 +287,7 @@ func (x *Exec) evalSpec(st *State, fr *Frame, e Expr, sc *scope) (Val, error) {
 		c := sc.child()
 		c.inQuant = true
 		var names, sorts []string
+		var ranges []Term
 		cur := Expr(e)
 		for {
 			q, ok := cur.(EQuant)
@@ -299,11 +300,24 @@ func (x *Exec) evalSpec(st *State, fr *Frame, e Expr, sc *scope) (Val, error) {
 			c.vars[q.Var] = Val{T: Term{name, sort}, Typ: typ}
 			names = append(names, name)
 			sorts = append(sorts, sort)
+			if typ != nil && sort == SInt && q.Sort != "int" && q.Sort != "Int" {
+				// a sized integer type: the bound variable ranges over that type's values only
+				if r := rangeOf(typ); r != nil {
+					ranges = append(ranges, And(App(SBool, "<=", IntLitStr(r.lo.String()), Term{name, SInt}), App(SBool, "<=", Term{name, SInt}, IntLitStr(r.hi.String()))))
+				}
+			}
 			cur = q.Body
 		}
 		body, err := x.evalBool(st, fr, cur, c)
 		if err != nil {
 			return Val{}, err
+		}
+		if len(ranges) > 0 {
+			if e.Forall {
+				body = Implies(And(ranges...), body)
+			} else {
+				body = And(append(ranges, body)...)
+			}
 		}
 		q := "exists"
 		if e.Forall {
@@ -358,6 +372,12 @@ func (x *Exec) specSort(s string) (string, types.Type) {
 		return SBool, types.Typ[types.Bool]
 	case "string", "Str":
 		return SStr, types.Typ[types.String]
+	case "uint64", "uint32", "uint16", "uint8", "uint", "int64", "int32", "int16", "int8", "byte":
+		for _, bt := range types.Typ {
+			if bt.Name() == s && bt.Info()&types.IsInteger != 0 {
+				return SInt, bt
+			}
+		}
 	case "Bytes":
 		return SBytes, nil
 	case "Ref":
@@ -433,6 +453,11 @@ func (x *Exec) evalBinary(st *State, fr *Frame, e EBinary, sc *scope) (Val, erro
 		}
 		return Val{T: App(SBool, e.Op, l.T, r.T)}, nil
 	case "+", "-", "*":
+		if e.Op == "+" && l.T.Sort == SStr && r.T.Sort == SStr {
+			// string concatenation: the same symbol the executor uses for s + t
+			x.D.DeclareFun("str.cat", []string{SStr, SStr}, SStr)
+			return Val{T: App(SStr, "str.cat", l.T, r.T), Typ: types.Typ[types.String]}, nil
+		}
 		if l.T.Sort == SMInt {
 			l = Val{T: App(SInt, "mint.v", l.T)}
 		}
@@ -950,6 +975,44 @@ func (x *Exec) evalCall(st *State, fr *Frame, e ECall, sc *scope) (Val, error) {
 						return v.Tup[k], nil
 					}
 					return Val{}, fmt.Errorf("lastarg: call to %s has %d arguments", key[5:], len(v.Tup))
+				}
+			}
+			// no such call on this path: an arbitrary (unconstrained) value of the argument's type,
+			// taken from a call site of the function under contract
+			if x.Top != nil && k >= 0 {
+				for _, b := range x.Top.Blocks {
+					for _, in := range b.Instrs {
+						c, ok := in.(*ssa.Call)
+						if !ok {
+							continue
+						}
+						n := staticCalleeName(c.Common())
+						if n == "" && !c.Common().IsInvoke() {
+							n = "<dynamic>"
+						}
+						if n == "" || !matchCallee(lit.V, n) {
+							continue
+						}
+						var ats []types.Type
+						var avs []ssa.Value
+						if c.Common().IsInvoke() {
+							ats = append(ats, c.Common().Value.Type())
+							avs = append(avs, c.Common().Value)
+						}
+						for _, a := range c.Common().Args {
+							ats = append(ats, a.Type())
+							avs = append(avs, a)
+						}
+						if k < len(ats) {
+							v := x.freshVal(st, "lastarg.none", ats[k])
+							if mi, ok := avs[k].(*ssa.MakeInterface); ok {
+								// the site boxes a value of a known type: keep payload() usable
+								d := x.freshVal(st, "lastarg.none.dyn", mi.X.Type())
+								v.Dyn = &d
+							}
+							return v, nil
+						}
+					}
 				}
 			}
 			return Val{}, fmt.Errorf("lastarg: no call matching %q on this path", lit.V)
